@@ -23,7 +23,7 @@ RULE = (
     "the state untouched, on a detector with a single readout and on one standing at the second of three readouts; functions without a recipe are listed as skipped. Part 'runs': generated pipelines of stochastic "
     "library models and a stochastic probe with a pipeline_seed, in exposure / sequential observation / dask observation / "
     "calibration, with or without outputs written into one parent folder (the second start finds the first one's folder name taken), executed twice from different prior states (and after an unseeded or a failing run): bit-identical results, "
-    "state restored, also when a model raises mid-run. Part 'leak': model functions that draw random numbers without a seed "
+    "state restored, also when a model raises mid-run; every stochastic library model followed by a later stochastic probe is in addition exposed twice on the very same objects on every run (enumerated). Part 'leak': model functions that draw random numbers without a seed "
     "parameter must not re-seed the process-wide generator (two different prior states must stay different). Non-trivial: the "
     "pipeline is really stochastic and the two prior states differ; distinct by canonical JSON."
 )
@@ -295,6 +295,18 @@ def run_cases(draw):
             "outputs": draw(st.sampled_from([False, False, True]))}
 
 
+def same_object_cases():
+    """Every stochastic library model followed by a later stochastic probe, exposed twice on the very same detector / pipeline / mode objects."""
+    out = []
+    for i, k in enumerate(sorted(STOCH)):
+        if k == "probe":
+            continue
+        for steps, seed in ((1, 42), (2, 0), (3, 2**32 - 1)):
+            out.append({"models": [k, "probe"], "mode": "exposure", "pipeline_seed": seed, "own_seeds": False, "steps": steps,
+                        "prior": [[11 + i, 0], [99, 5 + i]], "earlier": "nothing", "pygmo_seed": 1, "fail_at": None, "same_objects": True, "outputs": False})
+    return out
+
+
 def _run_spec(case, tmp, seeded=True, fail=False):
     groups = {"photon_collection": [{"name": "illum", "func": "pyxel.models.photon_collection.illumination", "enabled": True, "arguments": {"level": 500.0}}]}
     for i, k in enumerate(case["models"]):
@@ -469,5 +481,6 @@ def plan(tier):
         Part(name="models", kind="enum", cases=model_cases),
         Part(name="leak", kind="enum", cases=leak_cases),
         Part(name="runs", kind="gen", strategy=run_cases, examples=25 if q else 200),
+        Part(name="runs", kind="enum", cases=same_object_cases, label="each_model_twice_on_the_same_objects"),
         Part(name="seed_boundaries", kind="enum", cases=seed_boundary_cases),
     ]
